@@ -99,6 +99,7 @@ impl CopyDriver for Driver {
             thread::spawn(move || tree_walker(sources, &d, &c, file_tx, sc))
         };
 
+        verif_point!("parblock-before-joins");
         walk_worker.join()
             .map_err(|_| XcpError::CopyError("Error walking copy tree".to_string()))??;
         dispatcher.join()
@@ -149,6 +150,7 @@ fn queue_file_range(
             }
             let stat_result = match copy_result {
                 Ok(bytes) => {
+                    verif_point!("block-job-before-copied-update");
                     stat_tx.send(StatusUpdate::Copied(bytes as u64))
                 }
                 Err(e) => {
@@ -239,6 +241,7 @@ fn dispatch_worker(file_q: cbc::Receiver<Operation>, stats: &Arc<dyn StatusUpdat
         .queue_len(128)
         .build();
     for op in file_q {
+        verif_point!("dispatcher-received");
         match op {
             Operation::Copy(from, to) => {
                 info!("Dispatch[{:?}]: Copy {:?} -> {:?}", thread::current().id(), from, to);
